@@ -44,6 +44,8 @@ pub enum ExecStep {
     Observe(Vec<Sel>),
     CreateAtomic,
     CreateNow,
+    /// create an entity with one component inside the closure
+    CreateNowWith(u8, u32),
     DeleteNow(Sel),
     DeleteAtomic(Sel),
     InsertNow(u8, Sel, u32),
@@ -109,6 +111,7 @@ enum RStep {
     Observe(Vec<Entity>),
     CreateAtomic,
     CreateNow,
+    CreateNowWith(usize, u32),
     DeleteNow(Entity),
     DeleteAtomic(Entity),
     InsertNow(usize, Entity, u32),
@@ -135,8 +138,10 @@ enum QItem {
 #[derive(Clone, Debug, PartialEq)]
 enum LogEntry {
     Ran(u32),
-    Observed(Vec<(bool, Vec<bool>)>),
+    /// per probed handle (alive, contains per storage); then the raw mask of every storage
+    Observed(Vec<(bool, Vec<bool>)>, Vec<Vec<u32>>),
     Created(Entity),
+    CreatedWith(Entity, Ident),
     DelResult(bool),
     Inserted { ok: bool, old: Option<Ident>, new: Ident },
     QueuedValue(Ident),
@@ -193,6 +198,8 @@ pub struct Interp {
     dead_since_maintain: BTreeSet<u32>,
     any_death: bool,
     readers: Vec<Option<ReaderId<specs::storage::ComponentEvent>>>,
+    /// serials of values the model says were destroyed by the library in the current step
+    expect_destroyed: Vec<(u64, u32, Kind)>,
 }
 
 fn v(prop: &str, sig: &str, msg: String) -> Violation {
@@ -513,7 +520,8 @@ fn run_body(world: &mut World, kinds: &Arc<Vec<Kind>>, body: RExec, log: &Log) {
                         (alive, cs)
                     })
                     .collect();
-                log.lock().unwrap().push(LogEntry::Observed(obs));
+                let masks: Vec<Vec<u32>> = kinds.iter().map(|k| with_kind!(*k, st_mask(world))).collect();
+                log.lock().unwrap().push(LogEntry::Observed(obs, masks));
             }
             RStep::CreateAtomic => {
                 let e = world.entities().create();
@@ -522,6 +530,12 @@ fn run_body(world: &mut World, kinds: &Arc<Vec<Kind>>, body: RExec, log: &Log) {
             RStep::CreateNow => {
                 let e = world.create_entity().build();
                 log.lock().unwrap().push(LogEntry::Created(e));
+            }
+            RStep::CreateNowWith(slot, p) => {
+                let b = world.create_entity();
+                let (b, id) = with_kind!(kinds[slot], builder_with(b, p));
+                let e = b.build();
+                log.lock().unwrap().push(LogEntry::CreatedWith(e, id));
             }
             RStep::DeleteNow(h) => {
                 let r = world.delete_entity(h).is_ok();
@@ -566,10 +580,11 @@ impl Interp {
         let n = kinds.len();
         let readers = kinds
             .iter()
-            .map(|k| if transcript { with_kind!(*k, st_register_reader(&world)) } else { None })
+            .map(|k| with_kind!(*k, st_register_reader(&world)))
             .collect();
         Interp {
             readers,
+            expect_destroyed: vec![],
             world: Some(world),
             kinds: Arc::new(kinds),
             handles: vec![],
@@ -723,9 +738,10 @@ impl Interp {
         self.handles[hi].state = HState::Dead;
         self.occupant.remove(&id);
         let mut n = 0;
-        for c in self.comps.iter_mut() {
-            if c.remove(&id).is_some() {
+        for (slot, c) in self.comps.iter_mut().enumerate() {
+            if let Some(ident) = c.remove(&id) {
                 n += 1;
+                self.expect_destroyed.push((ident.0, id, self.kinds[slot]));
             }
         }
         if n >= 2 {
@@ -1175,7 +1191,24 @@ impl Interp {
                 };
                 let e = self.handles[hi].e;
                 let kind = self.kinds[slot];
+                // events of earlier operations are not this operation's business
+                let earlier = self.drain_events(slot);
                 let r = with_kind!(kind, st_restrict_other(self.w(), e, *p));
+                let evs = self.drain_events(slot);
+                if kind.tracked() {
+                    let member = self.alive(hi) && self.comps[slot].contains_key(&e.id());
+                    let mods: BTreeSet<u32> = evs.iter().filter_map(|ev| if let specs::storage::ComponentEvent::Modified(i) = ev { Some(*i) } else { None }).collect();
+                    let other: Vec<&specs::storage::ComponentEvent> = evs.iter().filter(|ev| !matches!(ev, specs::storage::ComponentEvent::Modified(_))).collect();
+                    ensure!("C13", "restrict-insert-remove-event", other.is_empty(), "get_other / get_other_mut on {:?} emitted {:?}", kind, other);
+                    if member && r.is_some() {
+                        ensure!("C13", "restrict-missing-modified", mods.contains(&e.id()) && mods.len() == 1,
+                            "get_other_mut({:?}) on {:?} wrote the component but the Modified events are {:?}", e, kind, mods);
+                    } else {
+                        ensure!("C13", "restrict-spurious-modified", mods.is_empty(),
+                            "a refused / read-only lookup through a restricted {:?} storage (handle {:?}, alive={}) emitted Modified events {:?}: nothing was fetched mutably", kind, e, self.alive(hi), mods);
+                    }
+                }
+                self.note(|| format!("events_before={:?} events={:?}", earlier, evs));
                 ensure!("C13", "restrict-no-item", r.is_some() == !self.comps[slot].is_empty(),
                     "restricted join over {:?} yields an item = {} but the model has {} members", kind, r.is_some(), self.comps[slot].len());
                 if let Some((sh, ex, exm)) = r {
@@ -1269,6 +1302,7 @@ impl Interp {
                 )),
                 ExecStep::CreateAtomic => Some(RStep::CreateAtomic),
                 ExecStep::CreateNow => Some(RStep::CreateNow),
+                ExecStep::CreateNowWith(s, p) => self.slot(*s).map(|a| RStep::CreateNowWith(a, *p)),
                 ExecStep::DeleteNow(sel) => self.resolve(*sel).map(|h| RStep::DeleteNow(self.handles[h].e)),
                 ExecStep::DeleteAtomic(sel) => self.resolve(*sel).map(|h| RStep::DeleteAtomic(self.handles[h].e)),
                 ExecStep::InsertNow(s, sel, p) => match (self.slot(*s), self.resolve(*sel)) {
@@ -1296,6 +1330,15 @@ impl Interp {
             }
         }
         RExec { id, steps: out }
+    }
+
+    fn drain_events(&mut self, slot: usize) -> Vec<specs::storage::ComponentEvent> {
+        let kind = self.kinds[slot];
+        let world = self.world.as_ref().unwrap();
+        match self.readers[slot].as_mut() {
+            Some(r) => with_kind!(kind, st_events(world, r)),
+            None => vec![],
+        }
     }
 
     fn stale_access(&mut self, slot: usize, e: Entity) {
@@ -1401,8 +1444,9 @@ impl Interp {
                                     })
                                     .collect();
                                 let got = log.get(cur).cloned();
-                                ensure!("C09", "closure-observation", got == Some(LogEntry::Observed(exp.clone())),
-                                    "closure #{} observed {:?} for handles {:?}; with deferred creations merged and deferred deletions purged it must see {:?}", body.id, got, hs, exp);
+                                let exp_masks: Vec<Vec<u32>> = self.comps.iter().map(|c| c.keys().cloned().collect()).collect();
+                                ensure!("C09", "closure-observation", got == Some(LogEntry::Observed(exp.clone(), exp_masks.clone())),
+                                    "closure #{} observed {:?} for handles {:?}; with deferred creations merged and deferred deletions purged it must see {:?} and storage masks {:?}", body.id, got, hs, exp, exp_masks);
                                 cur += 1;
                             }
                             RStep::CreateAtomic | RStep::CreateNow => {
@@ -1410,6 +1454,16 @@ impl Interp {
                                 match log.get(cur) {
                                     Some(LogEntry::Created(e)) => {
                                         self.on_created(*e, merged, false, if merged { "World::create_entity (in closure)" } else { "Entities::create (in closure)" })?;
+                                    }
+                                    other => return Err(v("C09", "log-shape", format!("closure #{}: expected a creation record, got {:?}", body.id, other))),
+                                }
+                                cur += 1;
+                            }
+                            RStep::CreateNowWith(slot, _) => {
+                                match log.get(cur) {
+                                    Some(LogEntry::CreatedWith(e, id)) => {
+                                        self.on_created(*e, true, false, "World::create_entity (in closure)")?;
+                                        self.comps[slot].insert(e.id(), *id);
                                     }
                                     other => return Err(v("C09", "log-shape", format!("closure #{}: expected a creation record, got {:?}", body.id, other))),
                                 }
@@ -1498,6 +1552,14 @@ impl Interp {
         let errs = with_ledger(|l| l.take_errors());
         if let Some(e) = errs.first() {
             return Err(v("C08", "ledger", e.clone()));
+        }
+        // C08: a deletion that took effect destroys the entity's components right then
+        for (serial, idx, kind) in std::mem::take(&mut self.expect_destroyed) {
+            if serial != 0 {
+                let st = with_ledger(|l| l.state_of(serial));
+                ensure!("C08", "not-destroyed-on-deletion", st != Some(St::Live),
+                    "the {:?} component (serial {}) of the entity at index {} is still alive after that entity's deletion took effect", kind, serial, idx);
+            }
         }
         ensure!("C09", "ran-before-maintain", self.log.lock().unwrap().is_empty(),
             "lazy actions ran outside maintain: {:?}", self.log.lock().unwrap());
@@ -1642,6 +1704,7 @@ fn exec_steps(depth: u32) -> BoxedStrategy<Vec<ExecStep>> {
         3 => proptest::collection::vec(sel(), 1..4).prop_map(ExecStep::Observe),
         1 => Just(ExecStep::CreateAtomic),
         1 => Just(ExecStep::CreateNow),
+        2 => (0u8..8, 1u32..1000).prop_map(|(s, p)| ExecStep::CreateNowWith(s, p)),
         1 => sel().prop_map(ExecStep::DeleteNow),
         1 => sel().prop_map(ExecStep::DeleteAtomic),
         2 => (0u8..8, sel(), 1u32..1000).prop_map(|(s, h, p)| ExecStep::InsertNow(s, h, p)),
